@@ -39,7 +39,7 @@ def handle_check(prop, tier, seed):
     preds = D.write_programs(mc["programs"], pf, limit=2500 if tier == "quick" else 40000, seed=seed)
     drift_total, compared_total, drift_notes = 0, 0, []
     # 2. replay the generated programs on the real code (G), judge by the laws (V), compare with the design (D)
-    for profile in ("debug", "release"):
+    for profile in (("debug", "release", "asan") if prop in ("C02", "C13") else ("debug", "release")):
         r = H.run_config("%s_%s_gen" % (prop, profile), profile, ["--programs", pf])
         compared, drift, notes = D.conformance(r["trace"], preds)
         compared_total += compared
@@ -52,8 +52,8 @@ def handle_check(prop, tier, seed):
     mcinfo = {k: mc[k] for k in ("distinct", "generated", "depth", "constants", "action_coverage")}
     mcinfo.update({"programs_emitted": len(mc["programs"]), "programs_replayed": len(preds), "conformance_steps": compared_total,
                    "conformance_drift": drift_total, "model_drift": drift_total > 0, "drift_samples": drift_notes[:3]})
-    for profile in ("debug", "release"):
-        ga = ["--random", "--seed", str(seed * 1000 + (1 if profile == "debug" else 2)), "--nprog", str(nprog), "--steps", str(steps),
+    for profile in (("debug", "release", "asan") if prop in ("C02", "C13") else ("debug", "release")):
+        ga = ["--random", "--seed", str(seed * 1000 + {"debug": 1, "release": 2, "asan": 3}[profile]), "--nprog", str(nprog), "--steps", str(steps),
               "--maxh", "6" if tier == "quick" else "8", "--maxlen", "12", "--profile", emph]
         results.append(H.run_config("%s_%s_rand" % (prop, profile), profile, ga))
     return H.report(prop, results, tier, seed, t0, assumptions=ASSUME_HANDLES, mc=mcinfo)
@@ -286,9 +286,9 @@ def hostile_check(prop, tier, seed):
     from . import hostile as X
     t0 = time.time()
     q = tier == "quick"
-    scripts, st = X.model("C17_model", 5 if q else 7, 4 if q else 10, seed)
+    scripts, st = X.model("C17_model", 5 if q else 8, 4 if q else 6, seed)
     cs = X.cases(scripts, seed, 2500 if q else 60000)
-    results = [X.run("C17_release", cs, "release"), X.run("C17_debug", cs[:900] if q else cs, "debug")]
+    results = [X.run("C17_release", cs, "release"), X.run("C17_debug", cs[:900] if q else cs, "debug"), X.run("C17_asan", cs, "asan")]
     rc, nnew, shown = 0, 0, set()
     for r in results:
         for v in r["violations"]:
